@@ -197,6 +197,22 @@ func writerFacts(repo string) map[string]interface{} {
 		}
 		return true
 	})
+	// identifiers naming the parameter inside the &fmtWriter{...} literal
+	insideLit := 0
+	ast.Inspect(wt.Body, func(n ast.Node) bool {
+		if cl, ok := n.(*ast.CompositeLit); ok {
+			if id, ok := cl.Type.(*ast.Ident); ok && id.Name == "fmtWriter" {
+				ast.Inspect(cl, func(m ast.Node) bool {
+					if id, ok := m.(*ast.Ident); ok && id.Name == param && id.Obj != nil && id.Obj.Kind == ast.Var {
+						insideLit++
+					}
+					return true
+				})
+			}
+		}
+		return true
+	})
+	res["paramUsesOutsideLiteral"] = uses - insideLit
 	res["paramUses"] = uses
 	res["paramUsesInFmtWriterLiteral"] = inLit
 	res["fwDotWUsesInWriteTo"] = fwW
